@@ -13,6 +13,7 @@ import (
 	eth2p0 "github.com/attestantio/go-eth2-client/spec/phase0"
 	"github.com/jonboulle/clockwork"
 	"github.com/libp2p/go-libp2p/core/host"
+	"github.com/libp2p/go-libp2p/core/network"
 	"github.com/libp2p/go-libp2p/core/peer"
 	mocknet "github.com/libp2p/go-libp2p/p2p/net/mock"
 	"github.com/prometheus/client_golang/prometheus"
@@ -96,6 +97,36 @@ func statusOf(err error) string {
 	}
 
 	return "other:" + err.Error()
+}
+
+// dupHost is the node's host as the component sees it: a peer may be connected over several connections at once (direct and
+// relayed, TCP and QUIC) -- mocknet keeps one connection per pair, so further ones are shown as repetitions of it.
+type dupHost struct {
+	host.Host
+
+	mu  *sync.Mutex
+	dup map[peer.ID]int
+}
+
+type dupNet struct {
+	network.Network
+
+	h dupHost
+}
+
+func (h dupHost) Network() network.Network { return dupNet{Network: h.Host.Network(), h: h} }
+
+func (n dupNet) ConnsToPeer(p peer.ID) []network.Conn {
+	cs := n.Network.ConnsToPeer(p)
+	n.h.mu.Lock()
+	defer n.h.mu.Unlock()
+	if len(cs) > 0 {
+		for range n.h.dup[p] {
+			cs = append(cs, cs[0])
+		}
+	}
+
+	return cs
 }
 
 type bnAnswer struct {
@@ -203,6 +234,7 @@ func runReadyz(t *testing.T, tr *drv.Tracer, sid int, sched []drv.Step) (hung bo
 	}
 	synctest.Wait()
 	connected := map[int]bool{}
+	self := dupHost{Host: hosts[0], mu: new(sync.Mutex), dup: map[peer.ID]int{}}
 
 	e.log(drv.Step{"ev": "Reset", "sid": sid, "part": "readyz", "sd": drv.Num(cfg["sd"]), "spe": drv.Num(cfg["spe"]), "np": np,
 		"gen": drv.Num(cfg["gen"]), "gauge": readyzGauge(t)})
@@ -214,7 +246,7 @@ func runReadyz(t *testing.T, tr *drv.Tracer, sid int, sched []drv.Step) (hung bo
 		case "Start":
 			e.genok, e.specok = st["genok"] == true, st["specok"] == true
 			e.log(drv.Step{"ev": "Start", "genok": e.genok, "specok": e.specok})
-			e.ready = startReadyChecker(ctx, hosts[0], e.client(), ids, clockwork.NewRealClock(), vapi)
+			e.ready = startReadyChecker(ctx, self, e.client(), ids, clockwork.NewRealClock(), vapi)
 			started = true
 		case "SetBN":
 			e.mu.Lock()
@@ -243,11 +275,12 @@ func runReadyz(t *testing.T, tr *drv.Tracer, sid int, sched []drv.Step) (hung bo
 					connected[i] = false
 				}
 			}
-			if st["dup"] == true && k >= 1 {
-				if _, err := mn.ConnectPeers(ids[0], ids[1]); err != nil {
-					t.Fatalf("connect: %v", err)
-				}
+			self.mu.Lock()
+			self.dup[ids[1]] = 0
+			if st["dup"] == true {
+				self.dup[ids[1]] = 2
 			}
+			self.mu.Unlock()
 			synctest.Wait()
 			// the environment's own bookkeeping, checked against the network (not against the component)
 			got := 0
